@@ -93,7 +93,9 @@ func newEngine(w *World) *Engine {
 	e.sc.add("(declare-sort F64 0)")
 	e.sc.add("(declare-const f64_zero F64)")
 	e.sc.add("(declare-const str_empty Str)")
-	e.sc.add("(declare-fun gs_len (Str) (_ BitVec 64))")
+	// string lengths are below 2^40 by construction (no axiom needed, also under binders)
+	e.sc.add("(declare-fun gs_len40 (Str) (_ BitVec 40))")
+	e.sc.add("(define-fun gs_len ((s Str)) (_ BitVec 64) ((_ zero_extend 24) (gs_len40 s)))")
 	e.sc.add("(assert (= (gs_len str_empty) (_ bv0 64)))")
 	e.sc.add("(declare-fun gs_id (Str) (_ BitVec 32))")
 	e.sc.add("(assert (= (gs_id str_empty) (_ bv1 32)))")
